@@ -20,7 +20,7 @@ CONSTANTS
   ReservedCand = {"now", "glob", "build_flavor", "serverless_operator"}
   Units = {"docs", "ops", "pages"}
   TagSeqs <- TagSeqsS
-  PartKinds = {"ops", "chals", "corpora"}
+  PartKinds = {"ops", "chals", "corpora", "opsN", "sched", "docs"}
   DefectKinds <- DefectsAll
   MaxOps = 3
   MaxChals = 3
